@@ -62,6 +62,7 @@ type ledgerStats struct {
 	appliedReverted int64
 	distinct        map[string]bool // (entry, sealed, transaction shape, era)
 	blocks          int64
+	fixed           int                // fixed behaviours replayed (scenarios.go)
 	hung            map[string]bool    // classes seen to be slow or not to return: not executed again (each costs that long again)
 	slow            map[string]float64 // observation: key -> seconds of the slowest call (calls that return, but take more than slowThreshold)
 	skippedHung     int64
@@ -138,6 +139,12 @@ func mutateBlock(c *vlib.Ctx, st *ledgerStats, exts []ext, sim *chain.Sim, g *gu
 	st.blocks++
 	st.mu.Unlock()
 	local := newLedgerStats()
+	preChecked := map[int][]string{}
+	for _, e := range exts {
+		if e.Fam == "complement" && e.X == "rest" {
+			preChecked[e.Ver] = append(preChecked[e.Ver], e.T)
+		}
+	}
 	// ids of the elements this block creates, in creation order
 	created := &createdIDs{}
 	for _, d := range a.Update.SiacoinElementDiffs() {
@@ -171,7 +178,7 @@ func mutateBlock(c *vlib.Ctx, st *ledgerStats, exts []ext, sim *chain.Sim, g *gu
 		if tg.abs != nil {
 			shape = fmt.Sprintf("v%d:%s", tg.abs.Ver, tg.abs.Tag)
 		}
-		if strings.Contains(e.X, "16000") {
+		if strings.Contains(e.X, "12000") {
 			st.heavyMu.Lock()
 			defer st.heavyMu.Unlock()
 		}
@@ -184,14 +191,23 @@ func mutateBlock(c *vlib.Ctx, st *ledgerStats, exts []ext, sim *chain.Sim, g *gu
 		if skip {
 			return
 		}
-		for _, sealed := range []bool{false, true} {
+		// siafund mutants also run (re-signed and re-sealed) on the state with a siafund pool of realistic size
+		variants := []int{0, 1}
+		if e.Fam == "wrap" || e.Fam == "siafund" || strings.Contains(e.T, "sfi") || strings.Contains(e.T2, "sfi") {
+			variants = append(variants, 2)
+		}
+		for _, variant := range variants {
+			sealed, rich := variant >= 1, variant == 2
 			st.mu.Lock()
 			skip = st.hung[e.class()]
 			st.mu.Unlock()
 			if skip {
 				return
 			}
-			m := &mctx{sim: sim, cs: a.Prev, child: child, ver: tg.ver, k: tg.k, abs: tg.abs, keys: keys, created: created}
+			m := &mctx{sim: sim, cs: a.Prev, child: child, ver: tg.ver, k: tg.k, abs: tg.abs, keys: keys, created: created, preChecked: preChecked}
+			if rich {
+				m.cs.SiafundTaxRevenue = types.Siacoins(1000)
+			}
 			m.b, m.bs = cloneBlock(a.Block, a.Supp)
 			var applied bool
 			if p, val := vlib.Recover(func() { applied = m.apply(e) }); p {
@@ -230,13 +246,15 @@ func mutateBlock(c *vlib.Ctx, st *ledgerStats, exts []ext, sim *chain.Sim, g *gu
 				if k := "ledger/" + site + "/" + cls; st.slow[k] < m.slowSec {
 					st.slow[k] = m.slowSec
 				}
-				st.hung[e.class()] = true // observed once; every further mutant of the class would cost as long
+				if strings.Contains(e.X, "12000") || m.slowSec > deadline.Seconds() {
+					st.hung[e.class()] = true // observed once; every further mutant of the class would cost as long
+				}
 				st.mu.Unlock()
 			}
 			local.mutants++
 			local.perFam[e.Fam]++
 			local.entriesHit[ei] = true
-			local.distinct[fmt.Sprint(ei, sealed, shape, era)] = true
+			local.distinct[fmt.Sprint(ei, variant, shape, era)] = true
 			if lo != nil && lo.Accepted {
 				local.accepted[e.class()]++
 				local.appliedReverted++
@@ -259,7 +277,7 @@ func mutateBlock(c *vlib.Ctx, st *ledgerStats, exts []ext, sim *chain.Sim, g *gu
 						if one.T == "payout" {
 							one.Ver = 0
 						}
-						m1 := &mctx{sim: sim, cs: a.Prev, child: child, ver: tg.ver, k: tg.k, abs: tg.abs, keys: keys, created: created}
+						m1 := &mctx{sim: sim, cs: m.cs, child: child, ver: tg.ver, k: tg.k, abs: tg.abs, keys: keys, created: created}
 						m1.b, m1.bs = cloneBlock(a.Block, a.Supp)
 						if !m1.apply(one) {
 							continue
@@ -284,6 +302,9 @@ func mutateBlock(c *vlib.Ctx, st *ledgerStats, exts []ext, sim *chain.Sim, g *gu
 				if sealed {
 					how = "re-signed and re-sealed"
 				}
+				if rich {
+					how += ", on the state with its siafund pool raised to 1000 SC"
+				}
 				// a failure of a transaction-level entry point: does the same mutant, sealed into its block, fail ValidateBlock too?
 				viaBlock := ""
 				if !lo.O.TimedOut && lo.Entry != "ValidateBlock" && lo.Entry != "ValidateOrphan" && lo.Entry != "ValidateHeader" && lo.Entry != "ApplyBlock" && lo.Entry != "RevertBlock" {
@@ -302,7 +323,7 @@ func mutateBlock(c *vlib.Ctx, st *ledgerStats, exts []ext, sim *chain.Sim, g *gu
 					how += "; " + viaBlock
 				}
 				c.Violation(key, fmt.Sprintf("%s %s on a valid block (height %d, %s era, transaction %s) changed by %v, %s", lo.Entry, kind, child, era, shape, e, how),
-					map[string]any{"entry": lo.Entry, "extreme": e, "sealed": sealed, "panic": lo.O.Panic, "stack": lo.O.Stack, "config": cfg, "behaviour": beh.Steps[:step+1],
+					map[string]any{"entry": lo.Entry, "extreme": e, "sealed": sealed, "rich_pool": rich, "panic": lo.O.Panic, "stack": lo.O.Stack, "config": cfg, "behaviour": beh.Steps[:step+1],
 						"target": map[string]any{"ver": m.ver, "index": m.k}, "block": mustJSON(m.b), "supplement": mustJSON(m.bs), "state": mustJSON(m.cs), "accepted_before_failure": lo.Accepted, "through_validate_block": viaBlock})
 			}
 			if len(local.samples) < 1 && lo != nil && lo.Accepted && e.Fam != "header" {
@@ -471,7 +492,12 @@ func runLedger(c *vlib.Ctx, exts []ext) (*ledgerStats, chain.RunStats) {
 	wg.Add(1)
 	go func() {
 		defer wg.Done()
+		n := runScenarios(c, st, exts)
+		st.mu.Lock()
+		st.fixed = n
+		st.mu.Unlock()
 		runLifecycle(c, st, exts)
+		runWrapScenario(c, st, exts)
 		for ei, e := range exts {
 			if e.Fam == "lifecycle" {
 				st.mu.Lock()
